@@ -17,7 +17,7 @@ ASSUMPTIONS = ['resting sell orders are reduce-only (as the strategy layer submi
                'everything resting on a symbol is cancelled when its position closes (stub strategy)',
                'balances compared with relative tolerance 1e-9; decisions closer than 1e-9 relative to the threshold accept either '
                'outcome; submit->cancel must restore the quote balance (rel 1e-12: balances are re-rounded to floats after each decimal operation)']
-MIN_OBS = {'exact_boundary_cases': 100, 'histories': 300, 'ops': 5000, 'fills': 2000, 'sell_submits_after_cancelled_sell': 300,
+MIN_OBS = {'session_state_comparisons': 2000, 'session_fills': 300, 'exact_boundary_cases': 100, 'histories': 300, 'ops': 5000, 'fills': 2000, 'sell_submits_after_cancelled_sell': 300,
            'reject_buy_agreed': 100, 'reject_sell_agreed': 100, 'near_threshold_accepts': 100, 'exact_holding_sells': 200,
            'state_comparisons': 5000}
 SYMS = ['BTC-USDT', 'ETH-USDT']
@@ -234,7 +234,26 @@ def _history(job):
     return res
 
 
+def _session(job):
+    import random as _r
+    from .. import session, specgen, shadow
+    rng = _r.Random(job['seed'])
+    spec = specgen.random_session(rng, minutes=rng.choice([300, 500, 800]), exch_type='spot', nsym=rng.choice([1, 1, 2]))
+    for r in spec['routes']:
+        r['script']['observe'] = 'light'
+    out = session.run_session(spec, snapshots=True)
+    syms = [r['symbol'] for r in spec['routes']]
+    viol, cnt = shadow.run_spot(out['events'], spec['config'], syms)
+    cnt['sessions'] = 1
+    for x in viol:
+        x['key'] = 'session:' + x['key']
+        x['witness']['spec'] = spec
+    return {'viol': viol, 'cnt': cnt, 'sigs': []}
+
+
 def run_job(job):
+    if job.get('kind') == 'session':
+        return _session(job)
     out = {'viol': [], 'cnt': {}, 'sigs': [], 'sample': None}
     for sub in job['batch']:
         r = _history(sub)
@@ -258,4 +277,7 @@ def make_jobs(tier, seed):
     n = 3000 if tier == 'quick' else 90000
     subs = [{'seed': rng.randrange(1 << 30), 'i': i, 'length': rng.choice([8, 15, 30, 60])} for i in range(n)]
     B = 25
-    return [{'kind': 'batch', 'batch': subs[i:i + B]} for i in range(0, n, B)]
+    jobs = [{'kind': 'batch', 'batch': subs[i:i + B]} for i in range(0, n, B)]
+    # the same shadow account inside real backtest sessions (real strategy layer, both simulators)
+    jobs += [{'kind': 'session', 'seed': rng.randrange(1 << 30)} for _ in range(120 if tier == 'quick' else 2500)]
+    return jobs
